@@ -78,7 +78,10 @@ fn unknown_table(parser: &mut Parser, open_tag: Range<usize>) {
     loop {
         match parser.nth(0).kind {
             Kind::RBrace if parser.nth_raw(1) == parser.raw_range(open_tag.clone()) => {
-                assert!(parser.eat(Kind::RBrace) && parser.eat(Kind::Ident));
+                assert!(parser.eat(Kind::RBrace));
+                // the closing tag has the text of the opening one, but it does not
+                // have to lex as an identifier ('mark', 'flag', or '\sub' ... 'sub')
+                parser.eat_raw();
                 parser.expect_semi();
                 break;
             }
